@@ -33,7 +33,7 @@ def smoother_refine(ctx, cfg, d, field, u0s, t0, hs):
 
     objs = sm.build(cfg, field, u0s, t0)
     solver, prior = objs["solver"], objs["prior"]
-    stepper = sm.ModelStepper(ctx, cfg, field, d, c02.lam_of(cfg, d))
+    stepper = sm.ModelStepper(ctx, cfg, field, d, c02.lam_of(cfg, d), prior=prior)
     state = solver.init(jnp.asarray(t0), prior, damp=cfg.damp)
     t = F(t0)
     case = c02.case_of(cfg, field, u0s, t0, hs)
@@ -144,7 +144,7 @@ def fixed_grid(ctx, cfg, d, field, u0s, t0, hs, open_loop):
     if not open_loop:
         return
     # open loop: model trajectory in exact arithmetic, then solveFixedGridSmoothed
-    stepper = sm.ModelStepper(ctx, cfg, field, d, c02.lam_of(cfg, d))
+    stepper = sm.ModelStepper(ctx, cfg, field, d, c02.lam_of(cfg, d), prior=prior)
     state0 = solver.init(jnp.asarray(t0), prior, damp=cfg.damp)
     ms = sm.state_slices(cfg, state0)
     aux = (([Fraction(0)] * d if cfg.fact == "bd" else Fraction(0)), Fraction(0)) if cfg.solver.startswith("mle") else None
